@@ -193,9 +193,6 @@ def _wrap_init(orig):
                         bad = 'label sets differ from L'
                     elif set(self.S0) != s0:
                         bad = 'S0 is %r, expected %r' % (self.S0, s0)
-                    elif L is not None and any(
-                            self._labels[s] is L.get(s) for s in states):
-                        bad = 'label set aliases the caller\'s L value'
                 except Exception as e:
                     bad = 'constructed object unreadable: ' + mon.fmt_exc(e)
             if not ok:
